@@ -14,9 +14,11 @@ ASSUMPTIONS = ["tolerances bounded by refine_atol/|grad psi| and finecontour_ato
 PALETTE = [
     {"nonorthogonal_xpoint_poloidal_spacing_length": 0.08},
     {"nonorthogonal_target_all_poloidal_spacing_length": 0.2},
-    {"nonorthogonal_xpoint_poloidal_spacing_range": 0.2, "nonorthogonal_target_all_poloidal_spacing_range": 0.4},
+    {"nonorthogonal_target_all_poloidal_spacing_range": 0.4},
     {"nonorthogonal_spacing_method": "poloidal_orthogonal_combined"},
     {},
+    {"nonorthogonal_radial_range_power": 3.0},
+    {"nonorthogonal_xpoint_poloidal_spacing_length": 0.03, "nonorthogonal_target_all_poloidal_spacing_length": 0.4},
 ]
 
 
@@ -32,7 +34,7 @@ def plan(tier, seed):
     hist_idx = [[0], [1, 0], [2, 4, 2]]
     if tier == "thorough":
         bases += [cases.tok("ldn", s=-1, fs=1, orth=False, tag="c15-ldn"), cases.tok("udn", s=1, fs=-1, orth=False, guards=2, tag="c15-udn"), cases.tok("lsn", s=-1, fs=1, orth=False, tag="c15-lsn", nonorthogonal_spacing_method="poloidal_orthogonal_combined")]
-        hist_idx += [[3, 0, 3, 1], [0, 0], [1, 2, 3]]
+        hist_idx += [[3, 0, 3, 1], [0, 0], [5, 6, 3], [6, 4]]
     cs = []
     jobs = []
     for b in bases:
